@@ -1,43 +1,155 @@
 """C15 - retry.  Proof: coq/Props/C15.v over the regenerated loop (Gen/Retry.v).
-Correspondence: scripted outcome sequences on retry_func and @retry vs the model evaluated in Coq."""
+Correspondence: scripted outcome sequences on retry_func and @retry vs the model evaluated in Coq.
+Outcomes: ['ret'] | ['raise', class path] | ['group', tree] with tree = [path] (plain leaf) | [path, [tree, ...]] (an exception
+group of class `path` carrying the members) - Model/RetryGroups.v."""
 import itertools, json
 from lib import *
 
 UNITS = ['Retry']
 MODEL = ['Model/RetryEval.vo']
 PROPS = 'Props/C15.v'
-PRE = 'From Coq Require Import List ZArith.\nFrom PV Require Import Base.Exn Model.RetrySem Model.RetryEval.\nImport ListNotations.'
+PRE = 'From Coq Require Import List ZArith.\nFrom PV Require Import Base.Exn Model.RetrySem Model.RetryGroups Model.RetryEval.\nImport ListNotations.'
 
 # exception universe (paths of coq/Base/Exn.v)
 U = {'Base': [], 'Exc': [0], 'KbdInt': [1], 'Value': [0, 1], 'Lookup': [0, 3], 'Index': [0, 3, 0], 'Key': [0, 3, 1],
-     'User': [0, 20], 'UserSub': [0, 20, 0], 'UserSubSub': [0, 20, 0, 0], 'User2': [0, 21]}
+     'User': [0, 20], 'UserSub': [0, 20, 0], 'UserSubSub': [0, 20, 0, 0], 'User2': [0, 21],
+     # exception groups (Model/RetryGroups.v; registered in the class map by harness/w_retry.py)
+     'BEG': [4], 'BEGsub': [4, 0], 'EG': [0, 15], 'EGsub': [0, 15, 0]}
+N_PLAIN_SPECS = 8      # the exhaustive sweeps run over these
 SPECS = [(['Exc'], True), (['Value'], True), (['Lookup'], True), (['Value', 'Key'], False), (['User'], True),
-         (['UserSub', 'Index'], False), (['Exc'], False), (['User2', 'Lookup', 'Value'], False)]
+         (['UserSub', 'Index'], False), (['Exc'], False), (['User2', 'Lookup', 'Value'], False),
+         # specifications that list a group class themselves
+         (['Value', 'EG'], False), (['EG'], True), (['EGsub', 'Key'], False), (['BEG'], True)]
+
+
+def derives(e, c):
+    return e[:len(c)] == c
+
+
+def derives_g(e, c):
+    """issubclass on the paths, with the one multiple-inheritance edge ExceptionGroup -> BaseExceptionGroup (RetryGroups.derives_g)"""
+    return derives(e, c) or (derives(e, U['EG']) and derives(U['BEG'], c))
+
+
+def is_group_class(p):
+    return derives_g(p, U['BEG'])
+
+
+def listed_by(spec, p):
+    return any(derives_g(p, s) for s in spec)
+
+
+def own_class(o):
+    """class path of the object an outcome raises"""
+    return o[1] if o[0] == 'raise' else o[1][0]
+
+
+def leaves(t):
+    return [t[0]] if len(t) == 1 else [l for m in t[1] for l in leaves(m)]
+
+
+def depth(t):
+    return 0 if len(t) == 1 else 1 + max(depth(m) for m in t[1])
+
+
+def coq_path(p):
+    return coq_list([coq_nat(x) for x in p])
 
 
 def coq_case(c):
+    def obj(t):
+        return f'XPlain {coq_path(t[0])}' if len(t) == 1 else f'XGroup {coq_path(t[0])} {coq_list([obj(m) for m in t[1]])}'
+
     def oc(o):
-        return 'ORet' if o[0] == 'ret' else 'ORaise ' + coq_list([coq_nat(x) for x in o[1]])
-    spec = coq_list([coq_list([coq_nat(x) for x in p]) for p in c['spec']])
-    return f'eval_case {coq_Z(c["attempts"])} {spec} {coq_list([oc(o) for o in c["outs"]])} ({oc(c["tail"])})'
+        return 'XRet' if o[0] == 'ret' else 'XRaise (' + obj([o[1]] if o[0] == 'raise' else o[1]) + ')'
+    spec = coq_list([coq_path(p) for p in c['spec']])
+    return f'eval_case_x {coq_Z(c["attempts"])} {spec} {coq_list([oc(o) for o in c["outs"]])} ({oc(c["tail"])})'
 
 
 def classify(c):
-    """outcome kinds relative to the spec: return / listed / subclass-of-listed / foreign / BaseException"""
+    """outcome kinds relative to the spec: return / listed / subclass-of-listed / foreign / BaseException, and for groups
+    own class listed or not x what the leaves are"""
     kinds = []
     for o in c['outs'] + [c['tail']]:
         if o[0] == 'ret':
             kinds.append('return'); continue
-        p = o[1]
-        if p[:1] != [0]:
+        p = own_class(o)
+        if o[0] == 'group':
+            lv = [listed_by(c['spec'], l) for l in leaves(o[1])]
+            kinds.append('group:%s/%s-leaves%s' % ('own-class-listed' if listed_by(c['spec'], p) else 'own-class-foreign',
+                                                   'listed' if all(lv) else 'mixed' if any(lv) else 'foreign',
+                                                   '/nested' if depth(o[1]) > 1 else ''))
+            if not derives(p, U['Exc']):
+                kinds.append('group:BaseExceptionGroup')
+        elif p[:1] != [0]:
             kinds.append('base')
         elif any(p == s for s in c['spec']):
             kinds.append('listed')
-        elif any(p[:len(s)] == s for s in c['spec']):
+        elif listed_by(c['spec'], p):
             kinds.append('sub')
         else:
             kinds.append('foreign')
     return kinds
+
+
+# ---- generation of exception groups ------------------------------------------------------------------------------------
+def group_class_for(rng, members, prefer=None):
+    """a group class that CPython accepts for these members: classes below ExceptionGroup carry Exception members only,
+    BaseExceptionGroup itself turns into an ExceptionGroup when all members are Exceptions (so it is used only with a
+    member that is not), user subclasses of BaseExceptionGroup carry anything"""
+    only_exc = all(derives(m[0], U['Exc']) for m in members)
+    ok = [U['EG'], U['EG'], U['EGsub'], U['BEGsub']] if only_exc else [U['BEG'], U['BEG'], U['BEGsub']]
+    if prefer is not None:
+        good = [p for p in prefer if (derives(p, U['EG']) and only_exc) or (p == U['BEG'] and not only_exc)
+                or (derives(p, U['BEG']) and p != U['BEG'])]
+        if good and rng.random() < 0.7:
+            return rng.choice(good)
+    return rng.choice(ok)
+
+
+def gen_group(rng, spec, flavour, level=0):
+    """flavour: what the leaves are relative to the spec - 'listed' (every leaf listed), 'mixed', 'foreign', 'base' (a leaf that
+    is not an Exception).  With some probability a member is a nested group of the same flavour."""
+    plain_listed = [s for s in spec if derives(s, U['Exc']) and not is_group_class(s)]
+    foreign = [p for p in ([0, 30], [0, 31], U['User2'], [0, 11]) if not listed_by(spec, p)] or [[0, 30]]
+
+    def leaf(kind):
+        if kind == 'listed' and plain_listed:
+            s = rng.choice(plain_listed)
+            return [s + [rng.randrange(3)]] if rng.random() < 0.25 else [s]
+        if kind == 'base':
+            return [rng.choice([U['KbdInt'], [2]])]
+        return [rng.choice(foreign)]
+    n = rng.choice([1, 1, 2, 2, 3])
+    if flavour == 'mixed':
+        kinds = ['listed', 'foreign'] + [rng.choice(['listed', 'foreign']) for _ in range(n - 1)]
+        rng.shuffle(kinds)
+    elif flavour == 'base':
+        kinds = ['base'] + [rng.choice(['listed', 'foreign', 'base']) for _ in range(n - 1)]
+        rng.shuffle(kinds)
+    else:
+        kinds = [flavour] * n
+    members = []
+    for k in kinds:
+        if level < 2 and rng.random() < 0.3:
+            members.append(gen_group(rng, spec, k if k != 'mixed' else 'listed', level + 1)[1])
+        else:
+            members.append(leaf(k))
+    prefer = [s for s in spec if is_group_class(s)] + [s + [0] for s in spec if is_group_class(s)]
+    return ['group', [group_class_for(rng, members, prefer or None), members]]
+
+
+def instance_of(rng, spec, cls):
+    """an outcome raising an instance of class `cls` - a group when cls is a group class"""
+    if not is_group_class(cls):
+        return ['raise', cls]
+    for _ in range(8):
+        g = gen_group(rng, spec, rng.choice(['listed', 'mixed', 'foreign'] if derives(cls, U['EG']) else ['base', 'listed', 'base']))
+        m = g[1][1]
+        only_exc = all(derives(x[0], U['Exc']) for x in m)
+        if (derives(cls, U['EG']) and only_exc) or (cls == U['BEG'] and not only_exc) or (derives(cls, U['BEG']) and cls != U['BEG']):
+            return ['group', [cls, m]]
+    return ['group', [cls, [[U['Value']]] if cls != U['BEG'] else [[U['KbdInt']]]]]
 
 
 def gen_cases(rng, tier):
@@ -47,7 +159,7 @@ def gen_cases(rng, tier):
     # exhaustive small scope: every sequence of length <= L over 5 outcome kinds chosen per spec
     L = 4 if tier == 'quick' else 6
     att_range = range(-1, 7) if tier == 'quick' else range(-2, 10)
-    for (names, single) in SPECS[:4 if tier == 'quick' else len(SPECS)]:
+    for (names, single) in SPECS[:4 if tier == 'quick' else N_PLAIN_SPECS]:
         spec = [U[n] for n in names]
         # representatives: return, listed, subclass of listed, foreign Exception, BaseException
         listed = spec[0]
@@ -61,23 +173,73 @@ def gen_cases(rng, tier):
                 tail = reps[rng.choice([0, 0, 1, 3])]
                 cases.append({'attempts': att, 'spec': spec, 'single': single, 'outs': [reps[i] for i in seq], 'tail': tail,
                               'mode': rng.choice(['func', 'deco'])})
+    # exception groups, exhaustive small scope: every sequence of length <= Lg over {return, listed, foreign, a group whose own
+    # class is foreign and whose leaves are all listed / mixed / nested-all-listed / foreign, a group whose own class is listed}
+    # (the group objects are drawn afresh for every sequence)
+    Lg = 3 if tier == 'quick' else 4
+    for (names, single) in [SPECS[1], SPECS[3], SPECS[0], SPECS[8]] + ([] if tier == 'quick' else [SPECS[5], SPECS[9], SPECS[10], SPECS[11]]):
+        spec = [U[n] for n in names]
+        plain = next((s for s in spec if not is_group_class(s)), None)
+
+        def rep(i):
+            if i == 0:
+                return ['ret']
+            if i == 1:
+                return ['raise', plain] if plain is not None else instance_of(rng, spec, spec[0])
+            if i == 2:
+                return ['raise', [0, 30]]
+            if i == 3:
+                return gen_group(rng, spec, 'listed')
+            if i == 4:
+                return gen_group(rng, spec, 'mixed')
+            if i == 5:
+                inner = [gen_group(rng, spec, 'listed')[1], gen_group(rng, spec, 'listed', 2)[1]]
+                return ['group', [group_class_for(rng, inner), inner]]
+            if i == 6:
+                return gen_group(rng, spec, rng.choice(['foreign', 'base']))
+            listed_groups = [s for s in spec if is_group_class(s)]
+            return instance_of(rng, spec, rng.choice(listed_groups)) if listed_groups else gen_group(rng, spec, 'listed', 2)
+        for n in range(1, Lg + 1):
+            for seq in itertools.product(range(8), repeat=n):
+                if not any(i >= 3 for i in seq) or (n >= 3 and rng.random() > (0.5 if tier == 'quick' else 0.4)):
+                    continue
+                cases.append({'attempts': rng.choice(list(att_range)), 'spec': spec, 'single': single, 'outs': [rep(i) for i in seq],
+                              'tail': rep(rng.choice([0, 0, 1, 2, 3])), 'mode': rng.choice(['func', 'deco'])})
     # random longer sequences, all attempts
     n_rand = 1500 if tier == 'quick' else 20000
     for _ in range(n_rand):
         names, single = rng.choice(SPECS)
         spec = [U[n] for n in names]
         ln = rng.choice([0, 1, 2, 3, 5, 8, 12, 20])
-        pool = [['ret']] * 2 + [['raise', s] for s in spec] * 3 + outcomes_pool
+        inst = lambda cls: instance_of(rng, spec, cls)
+        pool = [['ret']] * 2 + [inst(s) for s in spec] * 3 + outcomes_pool
         outs = [rng.choice(pool) for _ in range(ln)]
         if rng.random() < 0.5:   # make it mostly listed failures so the loop really iterates
-            outs = [rng.choice([['raise', s] for s in spec] + [['raise', spec[0] + [rng.randrange(3)]]]) for _ in range(ln)]
+            outs = [rng.choice([inst(s) for s in spec] + [inst(spec[0] + [rng.randrange(3)])]) for _ in range(ln)]
             if outs and rng.random() < 0.6:
                 outs[-1] = rng.choice([['ret'], ['raise', [0, 30]], ['raise', [1]]])
+        if rng.random() < 0.35:  # exception groups among the outcomes, at random positions
+            for j in range(len(outs)):
+                if rng.random() < 0.3:
+                    outs[j] = gen_group(rng, spec, rng.choice(['listed', 'listed', 'mixed', 'foreign', 'base']))
         att = rng.choice([-5, 0, 1, 1, 2, 2, 3, 3, 4, 5, 6, 8, 13, 21, 40])
-        tail = rng.choice([['ret'], ['ret'], ['raise', spec[0]], ['raise', [0, 30]]])
+        tail = rng.choice([['ret'], ['ret'], inst(spec[0]), ['raise', [0, 30]], gen_group(rng, spec, rng.choice(['listed', 'mixed']))])
         cases.append({'attempts': att, 'spec': spec, 'single': single, 'outs': outs, 'tail': tail,
                       'mode': rng.choice(['func', 'deco'])})
     return cases
+
+
+def class_map_ok(c, impl):
+    """the harness' own glue: isinstance(obj, exceptions) observed by the worker on every raised object must be what the
+    class paths say (the model and the specification are evaluated on the paths)"""
+    if not impl or 'isinst' not in impl:
+        return True
+    seq = c['outs']
+    for i, flag in enumerate(impl['isinst']):
+        o = seq[i] if i < len(seq) else c['tail']
+        if (flag is None) != (o[0] == 'ret') or (flag is not None and flag != listed_by(c['spec'], own_class(o))):
+            return False
+    return True
 
 
 def judge(c, impl, model):
@@ -95,7 +257,8 @@ def judge(c, impl, model):
     if impl['n_calls'] != spec_n:
         what.append(f'{impl["n_calls"]} invocations, the statement demands {spec_n}')
     if i_res != [0, impl['n_calls'] - 1]:
-        what.append(f'caller did not receive the object of the last invocation (got {i_res}, last={impl["n_calls"] - 1})')
+        what.append(f'caller did not receive the object of the last invocation (got {i_res}, last={impl["n_calls"] - 1}'
+                    + (f': {impl.get("exc")}, an object no invocation raised' if i_res[0] == 3 and impl.get('exc') else '') + ')')
     if i_trace != s_trace and not what:
         what.append(f'observable trace {i_trace} differs from the demanded {s_trace} (1=call with the caller\'s own arguments, '
                     f'2=call with other arguments, 3=sleep)')
@@ -142,10 +305,14 @@ def seq_stream(ck, tier, replay):
             calls = []
             for _ in range(ck.rng.choice([2, 3, 4, 6])):
                 ln = ck.rng.choice([0, 0, 1, 2, 3, 5])
-                outs = [ck.rng.choice([['raise', s] for s in spec] + [['raise', spec[0] + [1]]]) for _ in range(ln)]
-                tail = ck.rng.choice([['ret'], ['ret'], ['ret'], ['raise', spec[0]], ['raise', [0, 30]]])
+                inst = lambda cls: instance_of(ck.rng, spec, cls)
+                outs = [ck.rng.choice([inst(s) for s in spec] + [inst(spec[0] + [1])]) for _ in range(ln)]
+                if ck.rng.random() < 0.25:
+                    outs = [gen_group(ck.rng, spec, ck.rng.choice(['listed', 'mixed', 'foreign'])) if ck.rng.random() < 0.4 else o for o in outs]
+                tail = ck.rng.choice([['ret'], ['ret'], ['ret'], inst(spec[0]), ['raise', [0, 30]]])
                 calls.append({'outs': outs, 'tail': tail})
             seqs.append({'mode': 'deco_seq', 'attempts': ck.rng.choice([1, 2, 3, 3, 4, 5, 8]), 'spec': spec, 'single': single, 'calls': calls})
+        seqs.sort(key=lambda q: len(json.dumps(q)))      # the first failing sequence reported is a small one
     impl = ck.run_impl('w_retry', seqs, timeout=600)
     flat = [(si, ci) for si, sq in enumerate(seqs) for ci in range(len(sq['calls']))]
     sub = lambda si, ci: dict(seqs[si], outs=seqs[si]['calls'][ci]['outs'], tail=seqs[si]['calls'][ci]['tail'])
@@ -156,6 +323,8 @@ def seq_stream(ck, tier, replay):
         i = None if r is None or 'error' in r else r['calls'][ci] if ci < len(r['calls']) else None
         ck.note_case('seq-%s' % json.dumps([seqs[si]['attempts'], seqs[si]['spec'], seqs[si]['calls'][:ci + 1]]), nontrivial=ci >= 1)
         corr, prop, what = judge(sub(si, ci), i if i is not None else r, m)
+        if not class_map_ok(sub(si, ci), i):
+            ck.glue_bad.append({'seq': seqs[si], 'call': ci, 'impl': i})
         if corr and prop:
             ck.traces_validated += 1
         if not prop:
@@ -173,6 +342,7 @@ def seq_stream(ck, tier, replay):
 def run(tier, seed, replay=None):
     ck = Check('C15', tier, seed, UNITS, MODEL, PROPS)
     ck.prepare()
+    ck.glue_bad = []
     if replay is not None and replay['case'].get('obs') in ('corner', 'seq'):
         cases = []
     else:
@@ -188,6 +358,8 @@ def run(tier, seed, replay=None):
         key = json.dumps([c['attempts'], c['spec'], c['outs'], c['tail'], c['mode']])
         ck.note_case(key, nontrivial=(len(c['outs']) >= 1 and c['attempts'] >= 2))
         corr, prop, what = judge(c, i, m)
+        if not class_map_ok(c, i):
+            ck.glue_bad.append({'case': c, 'impl': i})
         if corr and prop:
             ck.traces_validated += 1
         if not prop:
@@ -201,6 +373,8 @@ def run(tier, seed, replay=None):
     if replay is None or replay['case'].get('obs') == 'seq':
         seq_stream(ck, tier, replay)
     ck.violations.sort(key=lambda v: (len(json.dumps(v['case'])),))
+    ck.oblige('harness:class-map', 'correspondence', not ck.glue_bad,
+              json.dumps(ck.glue_bad[0])[:900] if ck.glue_bad else 'isinstance(raised object, exceptions) observed by the worker agrees with the class paths on every invocation')
     ck.oblige('correspondence:retry', 'correspondence', not disagreements,
               json.dumps(disagreements[0])[:900] if disagreements else f'{ck.traces_validated} traces agree')
     if cases:
@@ -208,10 +382,13 @@ def run(tier, seed, replay=None):
                             'max_sequence_length': max(len(c['outs']) for c in cases), 'disagreements': len(disagreements)})
     ck.samples = [{'case': c, 'impl': i, 'model': m} for c, i, m in list(zip(cases, impl, model))[:3] + list(zip(cases, impl, model))[-3:]]
     ck.assumptions = ['time.sleep is patched in the harness process', 'logger output is not compared',
-                      'exception classes form a single-inheritance tree (paths); isinstance(e, exceptions) is prefix matching']
+                      'exception classes form a single-inheritance tree (paths) plus the edge ExceptionGroup -> BaseExceptionGroup; isinstance(e, exceptions) is prefix matching on it '
+                      '(checked per invocation against the worker: obligation harness:class-map)']
     return ck.finish(
         rule='exhaustive (sampled above length 2) outcome sequences over {return, listed, subclass of listed, foreign, BaseException} '
-             'x attempts x exception specs x {retry_func, @retry}, plus random longer sequences; distinct = (attempts, spec, outcomes, tail, mode); '
+             'x attempts x exception specs x {retry_func, @retry}; the same over exception GROUPS (own class listed / foreign x leaves listed / mixed / '
+             'foreign / not Exceptions, nested, ExceptionGroup / BaseExceptionGroup / user subclasses, specs that list a group class), exhaustive to length 3; '
+             'plus random longer sequences; distinct = (attempts, spec, outcomes, tail, mode); '
              'non-trivial = at least one scripted outcome and attempts >= 2',
         checker_cmd='make -C coq Props/C15.vo && coqc -Q coq PV coq/Props/C15.v (Print Assumptions under every theorem)',
         trusted_base=['Coq 8.16.1 kernel (coqc; vm_compute used for model evaluation and cfg_good)', 'translator/t_retry.py (Python ast -> Gen/Retry.v)',
